@@ -239,6 +239,13 @@ Theorem C19_transpose_formula : forall l t ne i j, wf_ity t -> rank ne = 2%nat -
 Proof. exact tr_map_formula. Qed.
 Print Assumptions C19_transpose_formula.
 
+Theorem C19_transpose_injective : forall l t ne i j i' j', wf_ity t -> rank ne = 2%nat ->
+  in_range [i; j] (rev (extents_list t ne)) -> in_range [i'; j'] (rev (extents_list t ne)) ->
+  product (extents_list t ne) <= imax t ->
+  tr_map l t ne i j = tr_map l t ne i' j' -> i = i' /\ j = j'.
+Proof. exact tr_map_injective. Qed.
+Print Assumptions C19_transpose_injective.
+
 Theorem C19_transpose_extents : forall t ne, wf_ity t -> wf_ext t ne -> rank ne = 2%nat ->
   extents_list t (tr_extents t ne) = rev (extents_list t ne).
 Proof. exact tr_extents_spec. Qed.
